@@ -59,6 +59,24 @@ var KINDS = {
   goproxy: function() { return __goProxy({}); },
   gomap: function() { return __goMapObject(); },
 };
+var PE_CALLS = 0;
+// forwarding layers (with a preventExtensions trap) of each proxy flavour: one [[PreventExtensions]] runs each trap exactly once
+var FWD_LAYERS = {proxyfwd: 1, proxy2: 1, proxyfunc: 1, proxyarr: 1, proxyarr2: 2};
+// for-in is the chain walk of [[OwnPropertyKeys]] + [[GetOwnProperty]].enumerable, whatever kind of object each link is
+function forInCheck(o) {
+  var want = [], seen = {}, got = [];
+  for (var c = o; c !== null; c = Object.getPrototypeOf(c)) {
+    var ks = Reflect.ownKeys(c);
+    for (var i = 0; i < ks.length; i++) {
+      if (typeof ks[i] !== "string" || seen["$" + ks[i]]) continue;
+      seen["$" + ks[i]] = true;
+      var d = Reflect.getOwnPropertyDescriptor(c, ks[i]);
+      if (d && d.enumerable) want.push(ks[i]);
+    }
+  }
+  for (var k in o) got.push(k);
+  return got.join("|") === want.join("|") ? null : "for-in yields " + got.join("|") + ", the chain walk of own enumerable keys " + want.join("|");
+}
 var FWD = {
   get: function(t, k, r) { return Reflect.get(t, k, r); },
   set: function(t, k, v, r) { return Reflect.set(t, k, v, r); },
@@ -67,7 +85,7 @@ var FWD = {
   defineProperty: function(t, k, d) { return Reflect.defineProperty(t, k, d); },
   getOwnPropertyDescriptor: function(t, k) { return Reflect.getOwnPropertyDescriptor(t, k); },
   ownKeys: function(t) { return Reflect.ownKeys(t); },
-  preventExtensions: function(t) { return Reflect.preventExtensions(t); },
+  preventExtensions: function(t) { PE_CALLS++; return Reflect.preventExtensions(t); },
   isExtensible: function(t) { return Reflect.isExtensible(t); },
   getPrototypeOf: function(t) { return Reflect.getPrototypeOf(t); },
   setPrototypeOf: function(t, p) { return Reflect.setPrototypeOf(t, p); },
@@ -141,7 +159,18 @@ function obs() {
       var want = /^proxyarr/.test(kd) ? "true,[object Array],object" : kd === "proxyfunc" ? "false,[object Function],function" : "false,[object Object],object";
       var got = [Array.isArray(o), Object.prototype.toString.call(o), typeof o].join();
       if (got !== want) props._err = "brand of the proxy: " + got + ", of its target: " + want;
+      if (kd === "proxyfunc") {
+        // a callable proxy is a function to instanceof (OrdinaryHasInstance through the traps) and to Function.prototype.toString, at any depth
+        var b2;
+        try {
+          var o2 = new Proxy(o, {}), inst = Object.create(Reflect.get(o, "prototype"));
+          b2 = [inst instanceof o, ({}) instanceof o, inst instanceof o2, typeof Function.prototype.toString.call(o), typeof Function.prototype.toString.call(o2)].join();
+        } catch (e) { b2 = "throws " + e; }
+        if (b2 !== "true,false,true,string,string") props._err = "function brand of the proxy: " + b2;
+      }
     }
+    var fe = CFG.kind === "global" ? null : forInCheck(o);
+    if (fe) props._err = fe;
     var ord = ourKeys(o);
     // the model keeps creation order; the observable order is OwnKeys: compare as a multiset here, the order via the ownkeys action
     st[n] = {props: props, order: ord, ext: tf(Object.isExtensible(o)), proto: pn};
@@ -222,10 +251,13 @@ function step(l) {
     res = ourKeys(o);
     break;
   case "prevent":
+    PE_CALLS = 0;
     res = surf(function() {
       if (l.via === "refl") return Reflect.preventExtensions(o);
       if (Object.preventExtensions(o) !== o) throw new Error("preventExtensions must return the object");
     });
+    var kdp = l.o === undefined || l.o === CFG.objs[0] ? CFG.kind : (CFG.kind2 || "plain");
+    if (FWD_LAYERS[kdp] !== undefined && PE_CALLS !== FWD_LAYERS[kdp]) throw new Error("one [[PreventExtensions]] on " + kdp + " ran the forwarding trap " + PE_CALLS + " times, not " + FWD_LAYERS[kdp]);
     break;
   case "integrity":
     res = surf(function() { if ((l.level === "frozen" ? Object.freeze(o) : Object.seal(o)) !== o) throw new Error("must return the object"); });
